@@ -74,16 +74,16 @@ def run(tier, seed):
         f.write("".join(x + "\n" for x in uniq))
     kept, total = vlib.cap_vectors(sched, 4000 if thorough else 700, seed)
     ck.notes["schedules"] = {"distinct": total, "replayed": kept}
+    drift = None
     for b in (ck.binary, race):
         rr = vlib.run_harness(b, PROP, sched, seed=seed, tier=tier, shards=1, timeout=2400, isolate=True)
         ck.triage(rr.divs, binary=b)
         try:
             ck.absorb(rr)
-        except vlib.Infra:
-            # the code left the protocol of the model: no verdict from the model - unless the same run
-            # also showed the property itself broken (wrong result, published map mutated)
-            if not ck.violations:
-                raise
+        except vlib.Infra as e:
+            # the code left the protocol of the model: no verdict from the model - unless this run, here or in the
+            # stress below, also shows the property itself broken (wrong result, published map mutated)
+            drift = drift or e
     os.unlink(sched)
     rounds = 40 if thorough else 12
     for procs in (1, 2, 4, 16):
@@ -119,6 +119,8 @@ def run(tier, seed):
             ck.evals += summ["evals"]
             for d in divs:
                 ck.violations.append((d, 1))
+    if drift is not None and not ck.violations:
+        raise drift
     ck.distinct += ck.traces + ck.notes.get("race_detector_runs", 0)
     ck.samples = [{"trace_event": '{"seq":2,"ev":"store","cache":"thrift.encoder","g":1,"id":1,"n":1}'},
                   {"schedule": "G goroutines x 3 fresh types x 8 entry points behind a barrier, GOMAXPROCS 1/2/4/16"}]
